@@ -449,6 +449,45 @@ func run(c *Ctx) {
 		}
 	}
 	c.Dist["escape-truncation-inputs"] = nesc
+	// multi-line block comments inside nested blocks: the printer re-indents them; continuation lines of every kind (blank,
+	// white space only and shorter / longer than the indentation, CR at the end, tabs, text at several indentations), 1..3
+	// such lines, nesting depth 0..3, the comment before / after / between statements and alone in the block
+	ncm := 0
+	contl := []string{"", " ", "  ", "\t", "\r", "   x", "\t\ty", "        ", " * z", "\t \r", "\t\t\t\tdeep"}
+	wraps := []struct{ o, c string }{{"", ""}, {"func f() {\n", "\n}"}, {"func f() {\n\tif a {\n", "\n\t}\n}"}, {"for a {\n  if b {\n    x = func() {\n", "\n    }\n  }\n}"}, {"if a {", "}"}, {"m = {1: func() {\n", "\n}}"}}
+	var crec func(cur []string)
+	crec = func(cur []string) {
+		if len(cur) > 0 {
+			terms := []string{"\n*/", " */", "\n\t\t*/", "\n      */", "*/", "\n \t*/"}
+			for ti, term := range terms {
+				if len(cur) == 3 && ti != (len(cur[0])+len(cur[1])+len(cur[2]))%len(terms) {
+					continue
+				}
+				body := "/* first\n" + strings.Join(cur, "\n") + term
+				for wi, w := range wraps {
+					for pi, pos := range []string{"%s", "y\n%s", "%s\ny", "y\n\t\t%s z", "\t\t\t%s"} {
+						if !c.Thorough() && len(cur) == 3 && (wi+pi+len(cur[0])+len(cur[2]))%4 != 0 {
+							continue
+						}
+						src := w.o + fmt.Sprintf(pos, body) + w.c
+						one(c, []byte(src), false, len(cur) == 1 && wi < 3, &st)
+						if pi == 0 {
+							one(c, []byte(strings.ReplaceAll(src, "\n", "\r\n")), wi%2 == 0, false, &st)
+						}
+						ncm++
+					}
+				}
+			}
+		}
+		if len(cur) == 3 {
+			return
+		}
+		for _, l := range contl {
+			crec(append(append([]string{}, cur...), l))
+		}
+	}
+	crec(nil)
+	c.Dist["nested-block-comment-inputs"] = ncm
 	// the entry points in front of the parser: shebang scripts and their truncations, every byte after "#!", and a sample
 	// of the inputs above
 	for _, scr := range []string{"#!/usr/bin/env grol -s\nprintln(1)\n", "#!\n", "#! x = )\nf(", "#!grol\r\n[1,\n", "#\n!", "x\n#!y"} {
